@@ -74,7 +74,7 @@ def summarize(results):
     return c
 
 
-def attribute(wd, label, differing, rules_of):
+def attribute(wd, label, differing, rules_of, env_for=None):
     """For each differing case (dict with id, src, generator, enva/envb), find the first rule of its pipeline after
     which the program is no longer equivalent to the original. Returns {id: culprit rule name or 'generator'}."""
     prefix_cases = []
@@ -82,9 +82,17 @@ def attribute(wd, label, differing, rules_of):
         rules = rules_of[c["id"]]
         for k in range(1, len(rules) + 1):
             pc = {"id": "%s|%d" % (c["id"], k), "src": c["src"], "rules": rules_text(rules[:k]), "generator": "retain_lines"}
-            for e in ("enva", "envb"):
-                if e in c:
-                    pc[e] = c[e]
+            if env_for:
+                # the reference environment of a prefix pipeline only presets what the rules of that prefix name
+                ea, eb = env_for(rules[:k])
+                if ea:
+                    pc["enva"] = ea
+                if eb:
+                    pc["envb"] = eb
+            else:
+                for e in ("enva", "envb"):
+                    if e in c:
+                        pc[e] = c[e]
             prefix_cases.append(pc)
     if not prefix_cases:
         return {}, 0, 0
@@ -167,4 +175,151 @@ def trigger_andor_multi(prog):
         for l in lists:
             if l and hit(l[-1]):
                 return True
+    return False
+
+
+def run_property(pid, tier, group, cfgs, luau, env_for=None, nrand=(200, 3000), per_cfg=(150, 1200), full_labels=("full",),
+                 level_note=None, extra_sig=None):
+    """Generic meaning-preservation check: RuleCases group + random programs x configurations -> LuaEquiv verdicts,
+    attribution to the first offending rule, classification against known findings."""
+    import random
+    import progen
+    rep = vlib.Report(pid, tier, "translation_validation")
+    rng = random.Random(vlib.seed())
+    enum, g = rule_cases(group)
+    n = nrand[0] if tier == "quick" else nrand[1]
+    progs = [{"group": "random", "kind": "random", "ctx": 0, "redex": k, "body": "", "src": progen.program(rng, luau=luau, max_stmts=rng.randint(6, 18))} for k in range(n)]
+    cases, rules_of = [], {}
+    pc = per_cfg[0] if tier == "quick" else per_cfg[1]
+    for ci, (label, rules, gen) in enumerate(cfgs(tier, rng)):
+        pool = enum + progs if label in full_labels else enum + rng.sample(progs, min(len(progs), max(0, pc - len(enum))))
+        if len(pool) > pc and label not in full_labels:
+            pool = rng.sample(pool, pc)
+        for pi, p in enumerate(pool):
+            cid = "c%d_%d" % (ci, pi)
+            c = {"id": cid, "src": p["src"], "rules": rules_text(rules), "generator": gen, "cfg": label,
+                 "pkind": p["kind"], "ctx": p["ctx"], "redex": p["redex"], "body": p["body"]}
+            if env_for:
+                ea, eb = env_for(rules)
+                if ea:
+                    c["enva"] = ea
+                if eb:
+                    c["envb"] = eb
+            cases.append(c)
+            rules_of[cid] = rules
+    for r in vlib.pinned_reproducers(pid):
+        if "src" not in r:
+            continue
+        cid = r["id"]
+        rl = [x.strip(" '") for x in r["rules"].strip("[]").split(",")]
+        c = {"id": cid, "src": r["src"], "rules": r["rules"], "generator": r.get("generator", "retain_lines"), "cfg": "pinned", "pkind": "pinned", "ctx": 0, "redex": 0, "body": r["src"]}
+        if env_for:
+            ea, eb = env_for(rl)
+            if ea:
+                c["enva"] = ea
+            if eb:
+                c["envb"] = eb
+        cases.append(c)
+        rules_of[cid] = rl
+    res, st, gen_ = equiv(rep.wd, "main", cases)
+    by = {c["id"]: c for c in cases}
+    differing = [by[cid] for cid, v in res.items() if v["verdict"] == "differ" or (v["verdict"] == "notrun" and not v["status"].startswith("input-rejected"))]
+    culprit, st2, gen2 = attribute(rep.wd, "main", [c for c in differing if len(rules_of[c["id"]]) > 1], rules_of, env_for)
+    trig_cache = {}
+    for c in differing:
+        v = res[c["id"]]
+        rules = rules_of[c["id"]]
+        cul = culprit.get(c["id"], rules[0] if len(rules) == 1 else "generator")
+        if c["src"] not in trig_cache:
+            trig_cache[c["src"]] = parse_nodes(c["src"])
+        prog = trig_cache[c["src"]]
+        sig = {"kind": "behaviour" if v["verdict"] == "differ" else "failure", "culprit": cul.split(",")[0].replace("{ rule: ", "").strip("'\" {}") if cul.startswith("{") else cul,
+               "trigger_andor_multi": trigger_andor_multi(prog), "trigger_repeat_continue_local": trigger_repeat_continue_local(prog),
+               "generator": c["generator"], "cfg": c["cfg"], "what": (v.get("detail") or {}).get("what", v.get("status", ""))[:120],
+               "body": c["body"][:200]}
+        if extra_sig:
+            sig.update(extra_sig(c, prog, v))
+        payload = {"id": c["id"], "src": c["src"], "rules": c["rules"], "generator": c["generator"], "out": v.get("out", ""), "detail": v.get("detail")}
+        for e in ("enva", "envb"):
+            if e in c:
+                payload[e] = c[e]
+        rep.violation(sig, payload)
+    summ = summarize(res)
+    decided = summ.get("equal", 0) + summ.get("differ", 0)
+    if decided < len(cases) * 0.5:
+        raise vlib.ToolError("only %d of %d pairs were decided (%s)" % (decided, len(cases), summ))
+    rep.coverage.update({
+        "programs": len(cases), "disagreements_checked": len(differing),
+        "samples": [{"rules": cases[0]["rules"], "generator": cases[0]["generator"], "src": cases[0]["src"]},
+                    {"rules": cases[-1]["rules"], "generator": cases[-1]["generator"], "src": cases[-1]["src"][:600]}],
+        "verdicts": summ, "distinct_sources": len(set(c["src"] for c in cases)),
+        "enumerated_rule_cases": len(enum), "random_programs": n, "configurations": len(set((c["rules"], c["generator"]) for c in cases)),
+        "states": st + st2 + g.distinct, "transitions": gen_ + gen2 + g.generated,
+    })
+    rep.assumptions += ["behaviour = sequence of external calls (ext*) with rendered arguments + rendered return values of the chunk (LuaEnv)",
+                        "an original that errors, exhausts fuel or reaches behaviour on which Lua 5.1 and Luau disagree (`unspec`) is outside the property and discarded",
+                        "input and output are read by the independent parser harness/luaparse; the semantics is spec/lua/LuaSem.tla"]
+    if level_note:
+        rep.assumptions.append(level_note)
+    return rep.finish()
+
+
+def replay_property(pid, path, tier):
+    rep = vlib.Report(pid, tier, "translation_validation")
+    with open(path) as f:
+        c = json.load(f)["case"]
+    case = {"id": "replay", "src": c["src"], "rules": c["rules"], "generator": c["generator"]}
+    for e in ("enva", "envb"):
+        if e in c:
+            case[e] = c[e]
+    res, st, gen_ = equiv(rep.wd, "replay", [case])
+    v = res["replay"]
+    if v["verdict"] in ("differ", "notrun"):
+        rep.violation({"kind": "behaviour", "culprit": "?", "trigger_andor_multi": trigger_andor_multi(parse_nodes(c["src"])), "what": str(v.get("detail") or v.get("status"))[:160]}, case)
+    rep.coverage.update({"programs": 1, "disagreements_checked": 1 if v["verdict"] == "differ" else 0, "samples": [case]})
+    return rep.finish()
+
+
+def trigger_repeat_continue_local(prog):
+    """F-C06-a: a `repeat` loop containing a `continue` that belongs to it, whose `until` condition mentions a local
+    declared in the loop body."""
+    if prog is None:
+        return False
+    nodes = prog["nodes"]
+
+    def kids(n):
+        out = [n["a"], n["b"], n["c"]] + list(n["l"]) + list(n["m"])
+        return [k for k in out if k]
+
+    def has_continue(i):
+        n = nodes[i - 1]
+        if n["k"] == "continue":
+            return True
+        if n["k"] in ("while", "repeat", "numfor", "genfor", "fn"):
+            return False
+        if n["k"] in ("localfn", "funcstmt"):
+            return False
+        return any(has_continue(k) for k in kids(n))
+
+    def names_in(i, acc):
+        n = nodes[i - 1]
+        if n["k"] == "var":
+            acc.add(n["s"])
+        for k in kids(n):
+            names_in(k, acc)
+        return acc
+
+    for n in nodes:
+        if n["k"] != "repeat":
+            continue
+        body = nodes[n["a"] - 1]
+        declared = set()
+        for s in body["l"]:
+            sn = nodes[s - 1]
+            if sn["k"] == "local":
+                declared.update(sn["ns"])
+            if sn["k"] == "localfn":
+                declared.add(sn["s"])
+        if any(has_continue(s) for s in body["l"]) and declared & names_in(n["b"], set()):
+            return True
     return False
